@@ -432,6 +432,7 @@ struct TypedGen {
   bool optConstant = true;            // context may contain the integer-like constant set C1
   bool optDerived = true;             // context may contain derived globals that carry data directly (D..)
   int optMinBase = 0;                 // minimal number of elements of a base set
+  bool optReuseNames = false;         // binders prefer names whose earlier scope has ended (legal re-declaration in sibling / domain scopes)
 
   explicit TypedGen(pbt::Ctx& ctx) : c(ctx) {}
 
@@ -540,6 +541,11 @@ struct TypedGen {
   // ---- names
   std::string freshLocal() {
     static const std::vector<std::string> pool = {"a", "b", "x", "y", "ab", "bc", "c", "t", "\xCE\xB1", "\xCE\xBE" "1", "a1", "s"};
+    if (optReuseNames) {
+      std::vector<std::string> released;
+      for (auto& n : everUsed) { bool live = false; for (auto& l : scope) live |= l.name == n; if (!live) released.push_back(n); }
+      if (!released.empty() && c.chance(3, 4)) return c.oneof(released);
+    }
     for (int tries = 0; tries < 30; ++tries) {
       const std::string n = c.oneof(pool);
       bool enabled = false; for (auto& l : scope) enabled |= l.name == n;
